@@ -25,6 +25,8 @@ added construct has a behaviour that a necessary condition of the property exclu
  W8  a method defined by a package base class (a mixin's override) that an earlier standard-library base of the same class
      also defines: the method resolution order takes the standard-library version.
  W9  `return` / `break` / `continue` inside a `finally` clause: the exception in flight is discarded.
+ W10 an assert statement whose test has a side effect (disappears under python -O).
+ W11 a deadline or duration computed from the wall clock (time.time()).
  W7  a lambda / nested function created in a loop that reads the loop variable and is not called in the same iteration
      (late binding: when it runs, every such closure acts on the last item).
 
@@ -45,14 +47,15 @@ EXPLANATION = (
     "(__len__/__bool__ on truth-tested configuration objects, __exit__ returning a true value, __str__/__repr__ returning a "
     "non-string, read hooks that write); W4 no decorator with shared mutable state wraps a function the rules anchor on; W5 "
     "an override of the serve loop's error hook cannot raise; W6 no new container that outlives a call is written from the "
-    "slice; W7 no closure created in a loop keeps reading the loop variable after its iteration (late binding); W8 no override provided by a package base class is hidden by a standard-library base listed before it; W9 no finally clause leaves with return / break / continue (which discards the exception in flight).")
+    "slice; W7 no closure created in a loop keeps reading the loop variable after its iteration (late binding); W8 no override provided by a package base class is hidden by a standard-library base listed before it; W9 no finally clause leaves with return / break / continue (which discards the exception in flight); W10 assert tests are free of side effects (the statement vanishes under python -O); W11 no deadline or duration is computed from the wall clock.")
 
 RULE_METHODS = {"W1": "decorator resolution + call-site argument classification", "W2": "reaching definitions + CFG reachability between consumers",
                 "W3": "class-body scan against vlib/known_functions.json + return / store classification",
                 "W4": "decorator resolution + closure-cell scan", "W5": "override scan against the stdlib hook table + E4 may-raise",
                 "W6": "store scan of module / class / decorator level containers",
                 "W7": "free-variable analysis of closures created in loops + use classification",
-                "W9": "syntax scan of finally clauses",
+                "W9": "syntax scan of finally clauses", "W10": "call classification inside assert tests (pure builtins / queries vs mutating callees)",
+                "W11": "syntax scan for arithmetic on time.time()",
                 "W8": "left-to-right linearisation of the bases against the names the standard-library bases define"}
 
 SRV = "SimpleJSONRPCServer"
@@ -298,7 +301,7 @@ def check(ck):
     sl = slice_of(prog, prop)
     ck.stat("closed_world_slice_functions", len(sl)) if hasattr(ck, "stat") else None
     errors = []
-    for part in (_w1_memo, _w2_iterators, _w6_containers, _w7_closures, _w9_finally_exits):
+    for part in (_w1_memo, _w2_iterators, _w6_containers, _w7_closures, _w9_finally_exits, _w10_assert_effects, _w11_wall_clock):
         try:
             part(ck, sl)
         except AnalysisError as ex:
@@ -605,3 +608,67 @@ def _w9_finally_exits(ck, sl):
                        "discarded there - failures inside the block are silently turned into a normal completion" % (dump(bad)[:40] if bad is not None else ""),
                        fi.loc(bad if bad is not None else t))
     ck.ok(rule, "finally clauses in the slice", "%d examined" % n, "")
+
+
+# ---------------------------------------------------------------------------
+# W10 side effects inside assert ; W11 durations measured on the wall clock ; W12 logging calls that can raise
+# ---------------------------------------------------------------------------
+_PURE_CALLS = ("isinstance", "issubclass", "len", "type", "callable", "hasattr", "getattr", "all", "any", "bool", "int", "float", "str",
+               "repr", "id", "min", "max", "sorted", "tuple", "list", "set", "frozenset", "dict", "abs", "sum", "iter", "enumerate", "zip")
+_PURE_METHODS = ("is_set", "get", "keys", "values", "items", "startswith", "endswith", "lower", "upper", "strip", "count", "index", "isdigit",
+                 "is_alive", "qsize", "empty", "full", "locked", "copy", "format", "join", "split", "isidentifier")
+
+
+def _w10_assert_effects(ck, sl):
+    prog = ck.prog
+    rule = ck.prop + ".W10"
+    n = 0
+    from rules import common
+    for fi in sl.values():
+        for a in [x for x in ast.walk(fi.node) if isinstance(x, ast.Assert)]:
+            n += 1
+            bad = None
+            for c in [x for x in ast.walk(a.test) if isinstance(x, ast.Call)]:
+                f = c.func
+                if isinstance(f, ast.Name) and f.id in _PURE_CALLS:
+                    continue
+                if isinstance(f, ast.Attribute) and f.attr in _PURE_METHODS:
+                    continue
+                r = prog.resolve_call(fi, c)
+                if isinstance(r, FuncInfo):
+                    if not common.mutations(r) and not any(isinstance(x, (ast.Yield, ast.Global)) for x in ast.walk(r.node)):
+                        continue
+                    bad = (c, "it modifies state (%s)" % common.mutations(r)[0][1]) if common.mutations(r) else (c, "it is not a plain query")
+                    break
+                if isinstance(f, ast.Attribute) and f.attr in ("pop", "append", "remove", "add", "discard", "update", "setdefault", "clear", "extend",
+                                                                "insert", "popitem", "put", "get_nowait", "put_nowait", "set", "release", "acquire",
+                                                                "send", "write", "close", "start", "join", "pop_headers", "push_headers"):
+                    bad = (c, "`.%s()` changes the object it is called on" % f.attr)
+                    break
+                for m in prog.funcs.values():
+                    if m.cls is not None and isinstance(f, ast.Attribute) and m.name == f.attr and common.mutations(m):
+                        bad = (c, "the package method %s it may denote modifies state" % q.fn(m))
+                        break
+                if bad:
+                    break
+            ck.require(bad is None, rule, "%s: `%s`" % (q.fn(fi), dump(a)[:50]), "side-effect free test",
+                       "the assert statement evaluates `%s`, and %s: with assertions disabled (python -O, PYTHONOPTIMIZE) the whole statement "
+                       "- the call included - is not executed, so the effect the surrounding code relies on silently disappears"
+                       % (dump(bad[0])[:50] if bad else "", bad[1] if bad else ""), fi.loc(a))
+    ck.ok(rule, "assert statements in the slice", "%d examined" % n, "")
+
+
+def _w11_wall_clock(ck, sl):
+    rule = ck.prop + ".W11"
+    n = 0
+    for fi in sl.values():
+        for x in ast.walk(fi.node):
+            if isinstance(x, ast.BinOp) and isinstance(x.op, (ast.Add, ast.Sub)):
+                sides = [x.left, x.right]
+                if any(isinstance(s_, ast.Call) and dump(s_.func) in ("time.time", "datetime.now", "datetime.datetime.now", "datetime.utcnow") for s_ in sides):
+                    n += 1
+                    ck.bad(rule, "%s: `%s`" % (q.fn(fi), dump(x)[:50]),
+                           "a deadline / duration is computed from the wall clock (`%s`): when the system clock is stepped (NTP, manual change) "
+                           "during the wait, a timeout expires at once or never - use time.monotonic() or pass the timeout to the primitive "
+                           "unchanged" % dump(x)[:50], fi.loc(x))
+    ck.ok(rule, "durations computed from the wall clock in the slice", "%d found" % n, "")
